@@ -5,7 +5,7 @@
    dropped documents exactly those flagged).  That the merged segment's index holds exactly these
    vectors is decided by the correspondence run (searches on the re-opened merge output against the
    specification, chains of merges, engine accounting). *)
-From Coq Require Import List Arith.
+From Coq Require Import List Arith NArith.
 Require Import ZV.Renum.
 Import ListNotations.
 
@@ -16,3 +16,16 @@ Theorem C15_renumbering_partial : forall segs next,
   (forall s d, nth d (nth s ms []) None = None <-> nth d (nth s segs []) true = true).
 Proof. exact C05_renumber. Qed.
 Print Assumptions C15_renumbering_partial.
+
+(* the specification the merged segments are searched against: for every vector field, the merged
+   field holds exactly the vectors of surviving documents under the new numbering - nothing else,
+   nothing missing - and does not exist when no vector survives (C05 fixes the numbering) *)
+Require ZV.VecSpec ZV.VecSpecProof ZV.SpecMerge ZV.Spec.
+Theorem C15_merged_field_is_the_survivors : forall (cms : list (list VecSpec.vfield * list N)) (f : Spec.str),
+  match VecSpec.merge_vfield cms f with
+  | Some v => VecSpec.vf_name v = f /\ VecSpec.vf_vecs v <> nil /\
+              (forall nd bits, In (nd, bits) (VecSpec.vf_vecs v) <-> VecSpecProof.input_vec cms f nd bits)
+  | None => forall nd bits, ~ VecSpecProof.input_vec cms f nd bits
+  end.
+Proof. exact VecSpecProof.merge_vfield_spec. Qed.
+Print Assumptions C15_merged_field_is_the_survivors.
